@@ -58,6 +58,10 @@ def run(chk: Check, proj: Project) -> None:
     _m9, _f9 = proj.func("util.template_parser", "parse_template")
     chk.borrow("S12", "tokens of a stock template keep Django's line numbers and positions (error messages and the debug page quote them): relexed segments are shifted by the segment origin and an ASSIGNED absolute line offset (shared with C09-S1..S3)",
                lambda sub: C09.s1_s3(sub, proj, _m9, _f9))
+    from . import C18 as _C18
+
+    chk.borrow("S13", "a component's template is compiled with ITS OWN name and origin: the template cache key covers every input of the compilation - `origin.template_name` is what Django resolves a relative {% extends './base.html' %} / {% include './row.html' %} against, so two components with byte-identical template files in different directories must not share one compiled Template (shared with C18-S4)",
+               lambda sub: _C18.s4(sub, proj), only=lambda o: "key-covers-every-input" in o.construct or "key" in o.construct)
     chk.borrow("S10", "the render_context layer pushed for a component render is popped on every normal path of THAT call (not later from a callback): a layer left on the parent's RenderContext makes an enclosing {% include %} pop the wrong one and later {% block %}s lose their BlockContext (shared with C03-S3)",
                lambda sub: C03.s3(sub, proj, world(proj)))
 
